@@ -23,13 +23,26 @@ type Solver struct {
 	Stats   SolverStats
 	errSeen string // first "(error" line seen since the last Reset (makes the path inconclusive)
 	timeout int    // ms per query
+
+	pathCmds []string  // declarations and assertions of the current path (for the fallback solvers)
+	alts     []*Solver // fallback solvers, started on the first unknown
+	isAlt    bool
+	Retries  int
+	Rescued  int
 }
 
 type SolverStats struct {
 	Queries, Sat, Unsat, Unknown int
+	Retries, Rescued             int
 	Dur                          time.Duration
 	MaxQuery                     time.Duration
 }
+
+var forceUnknownEvery = func() int {
+	n := 0
+	fmt.Sscan(os.Getenv("GOSE_FORCE_UNKNOWN"), &n)
+	return n
+}()
 
 func solverCommand(kind string, timeoutMs int) *exec.Cmd {
 	switch kind {
@@ -68,6 +81,57 @@ func NewSolver(kind string, timeoutMs int) (*Solver, error) {
 	return s, nil
 }
 
+// record remembers a path-level command so that a fallback solver can be
+// brought to the same state.
+func (s *Solver) record(line string) {
+	if !s.isAlt {
+		s.pathCmds = append(s.pathCmds, line)
+	}
+}
+
+// Retry re-asks "current path assertions + t" of fresh fallback solvers after
+// the main solver answered unknown.
+func (s *Solver) Retry(t *Term) string {
+	if s.isAlt {
+		return "unknown"
+	}
+	s.Retries++
+	s.Stats.Retries++
+	if s.alts == nil {
+		for _, k := range []string{"z3-new", "cvc5", "z3"} {
+			if k == s.kind {
+				continue
+			}
+			a, err := NewSolver(k, s.timeout)
+			if err == nil {
+				a.isAlt = true
+				s.alts = append(s.alts, a)
+			}
+		}
+	}
+	for _, a := range s.alts {
+		a.send("(reset)")
+		a.send("(set-option :produce-models true)")
+		a.send("(set-logic ALL)")
+		a.depth = 0
+		a.errSeen = ""
+		for _, c := range s.pathCmds {
+			a.send(c)
+		}
+		if t != nil {
+			// t's symbols are already declared in pathCmds (declare runs before Retry)
+			a.send("(assert " + t.String() + ")")
+		}
+		r := a.Check()
+		if r == "sat" || r == "unsat" {
+			s.Rescued++
+			s.Stats.Rescued++
+			return r
+		}
+	}
+	return "unknown"
+}
+
 func (s *Solver) send(line string) {
 	if s.log != nil {
 		fmt.Fprintln(s.log, line)
@@ -86,6 +150,7 @@ func (s *Solver) Reset() {
 	s.depth = 1
 	s.decl = map[string]bool{}
 	s.errSeen = ""
+	s.pathCmds = s.pathCmds[:0]
 }
 
 func (s *Solver) declare(t *Term) {
@@ -97,25 +162,32 @@ func (s *Solver) declare(t *Term) {
 				if d.isB {
 					sort = "Bool"
 				}
-				s.send(fmt.Sprintf("(declare-const %s %s)", d.name, sort))
+				c := fmt.Sprintf("(declare-const %s %s)", d.name, sort)
+				s.send(c)
+				s.record(c)
 			}
 			return
 		}
 		key := fmt.Sprintf("%s/%d", d.name, len(d.args))
 		if !s.decl[key] {
 			s.decl[key] = true
+			var c string
 			if len(d.args) == 0 {
-				s.send(fmt.Sprintf("(declare-const %s Int)", d.name))
+				c = fmt.Sprintf("(declare-const %s Int)", d.name)
 			} else {
-				s.send(fmt.Sprintf("(declare-fun %s (%s) Int)", d.name, strings.TrimSpace(strings.Repeat("Int ", len(d.args)))))
+				c = fmt.Sprintf("(declare-fun %s (%s) Int)", d.name, strings.TrimSpace(strings.Repeat("Int ", len(d.args))))
 			}
+			s.send(c)
+			s.record(c)
 		}
 	})
 }
 
 func (s *Solver) Assert(t *Term) {
 	s.declare(t)
-	s.send("(assert " + t.String() + ")")
+	c := "(assert " + t.String() + ")"
+	s.send(c)
+	s.record(c)
 }
 
 // Check returns "sat", "unsat", or something else (unknown/timeout/error).
@@ -153,6 +225,9 @@ func (s *Solver) Check() string {
 		s.Stats.Unknown++
 		return "error: " + s.errSeen
 	}
+	if forceUnknownEvery > 0 && !s.isAlt && s.Stats.Queries%forceUnknownEvery == 0 {
+		verdict = "unknown" // self-test of the fallback path (GOSE_FORCE_UNKNOWN)
+	}
 	switch verdict {
 	case "sat":
 		s.Stats.Sat++
@@ -171,6 +246,18 @@ func (s *Solver) CheckWith(t *Term) string {
 	s.send("(assert " + t.String() + ")")
 	r := s.Check()
 	s.send("(pop)")
+	if r != "sat" && r != "unsat" && !strings.HasPrefix(r, "error") {
+		r = s.Retry(t)
+	}
+	return r
+}
+
+// CheckPath checks the current assertions alone (with the fallback).
+func (s *Solver) CheckPath() string {
+	r := s.Check()
+	if r != "sat" && r != "unsat" && !strings.HasPrefix(r, "error") {
+		r = s.Retry(nil)
+	}
 	return r
 }
 
@@ -326,6 +413,9 @@ func tokenize(s string) []string {
 }
 
 func (s *Solver) Close() {
+	for _, a := range s.alts {
+		a.Close()
+	}
 	s.in.Flush()
 	s.inc.Close()
 	s.cmd.Wait()
